@@ -29,7 +29,8 @@ type c17Case struct {
 
 var c17Whats = []string{"noniterable", "nofunction", "nofilter", "notest", "missing-template", "unknown-macro", "broken-include", "broken-import", "broken-embed", "parent-outside", "bad-regexp", "oversized-range", "mod-zero",
 	"err-in-cond-branch", "err-in-args", "err-in-literal", "err-in-interp", "err-in-set", "err-in-if", "err-in-for-seq", "err-in-include-name", "err-in-with", "err-in-operand",
-	"err-in-filter-operand", "err-in-filter-operand-args", "err-in-test-operand"}
+	"err-in-filter-operand", "err-in-filter-operand-args", "err-in-test-operand",
+	"err-in-macro-arg-alias", "err-in-macro-arg-from", "err-in-macro-arg-nested"}
 
 func c17Construct(what string) []*m.N {
 	switch what {
@@ -87,6 +88,17 @@ func c17Construct(what string) []*m.N {
 		return []*m.N{m.NPrint(m.EFilter("wrap", m.EBin("%", m.ENum(7), m.ENum(0)), m.EStr("x")))}
 	case "err-in-test-operand":
 		return []*m.N{m.NPrint(m.ECond(m.ETest("odd", false, m.ECall("nosuchfunction")), m.EStr("a"), m.EStr("b")))}
+	case "err-in-macro-arg-alias":
+		// an argument of a macro call fails (surplus arguments are ignored,
+		// their errors are not): through an import alias ...
+		return []*m.N{{K: "import", X: m.EStr("flib"), S: "fz"}, m.NPrint(&m.E{K: "mcall", S: "real", T: "alias", U: "fz", A: []*m.E{m.EStr("age"), m.EBin("%", m.ENum(10), m.ENum(0))}})}
+	case "err-in-macro-arg-from":
+		// ... through a from-import ...
+		return []*m.N{{K: "from", X: m.EStr("flib"), Pairs: [][2]string{{"real", "fzr"}}}, m.NPrint(&m.E{K: "mcall", S: "real", T: "from", U: "fzr", A: []*m.E{m.ECall("nosuchfunction", m.ENum(1))}})}
+	case "err-in-macro-arg-nested":
+		// ... and nested in a list passed to the macro, the call being the
+		// operand of a filter
+		return []*m.N{{K: "import", X: m.EStr("flib"), S: "fz"}, m.NPrint(m.EFilter("up", &m.E{K: "mcall", S: "real", T: "alias", U: "fz", A: []*m.E{m.EArr(m.ENum(1), m.ECall("nosuchfunction"))}}))}
 	case "marker":
 		return []*m.N{{K: "do", X: m.ECall("id", m.EStr("@@"))}}
 	}
@@ -180,7 +192,7 @@ func init() {
 		ID:        "C17",
 		Level:     "fault_enumeration",
 		Technique: "fault enumeration over generated programs: every write fails in turn (two modes), every load fails in turn, run-time error constructs inserted at every statement position; invariants over the recorded write history",
-		Rule: "generated programs (text, prints, loops, captures, filter sections, macros, includes, embeds, inheritance) x every fault point: the destination writer failing at its k-th Write for every k in 1..W (error with n=0; short write with error), the loader failing at its k-th Load for every k in 1..L, and run-time error constructs (non-iterable for, unknown function / filter / test, missing template, unknown macro of an import, include / import / embed of a template with one of 23 kinds of syntax error, parent() outside a block, invalid regular expression, oversized range, modulo by zero, and a failing expression in thirteen positions, among them the operand of a declared filter and of a test) inserted before every statement of the entry template. " +
+		Rule: "generated programs (text, prints, loops, captures, filter sections, macros, includes, embeds, inheritance) x every fault point: the destination writer failing at its k-th Write for every k in 1..W (error with n=0; short write with error), the loader failing at its k-th Load for every k in 1..L, and run-time error constructs (non-iterable for, unknown function / filter / test, missing template, unknown macro of an import, include / import / embed of a template with one of 23 kinds of syntax error, parent() outside a block, invalid regular expression, oversized range, modulo by zero, and a failing expression in sixteen positions, among them the operand of a declared filter and of a test and the arguments of macro calls through an import alias and a from-import) inserted before every statement of the entry template. " +
 			"Oracle (invariants): Execute returns a non-nil error; the bytes the writer accepted are a prefix of the fault-free output (for inserted constructs: of the output of the program without the construct; a construct that is never reached - decided by a marker run - must change nothing); no Write call after the failed one; ExecuteSafe performs zero writes when rendering fails and otherwise delivers exactly Execute's bytes. " +
 			"Non-trivial: the program performs >= 3 writes and contains a filter section, include, embed or inherited block; counted per distinct (program, fault point).",
 		Assumptions: []string{"a writer that returns a short count with a nil error is a writer bug and is not injected", "a template reader failing mid-read is not in the statement's fault list"},
